@@ -559,8 +559,10 @@ class URL:
     def _cache_netloc(self) -> None:
         """Cache the netloc parts of the URL."""
         c = self._cache
-        split_loc = split_netloc(self._netloc)
-        c["raw_user"], c["raw_password"], c["raw_host"], c["explicit_port"] = split_loc
+        user, password, host, port = split_netloc(netloc := self._netloc)
+        c["raw_user"], c["raw_password"], c["explicit_port"] = user, password, port
+        # an authority without a host has an empty host, same as encode_url()
+        c["raw_host"] = "" if host is None and netloc else host
 
     def is_absolute(self) -> bool:
         """A check for absolute URLs.
